@@ -71,6 +71,7 @@ func main() {
 		{"mw", func() { mwCampaign(o, r, m) }},
 		{"table", func() { tableCampaign(r, m) }},
 		{"api", func() { apiCampaign(o, r, m) }},
+		{"conv", func() { convCampaign(o, r, m) }},
 		{"stack", func() { stackCampaign(o, r, m) }},
 		{"seeded", func() { seededCases(r, m) }},
 		{"onechar", func() { oneCharPatternCase(r) }},
@@ -91,7 +92,12 @@ func main() {
 // ---------------------------------------------------------------------------
 
 type rule struct {
-	kind byte // 'h' hosts-style, 'n' network-style
+	kind byte // 'h' hosts-style, 'n' network-style, 'j' a list entry that is no rule (junk holds its text)
+	// junk: an empty or blank entry, a comment.  It is part of the configuration, never of the
+	// rules: the model does not get it and the oracle ignores it.
+	junk string
+	// pad: the rule text is surrounded by blanks in the configuration.
+	pad bool
 	// hosts-style: the names; ipStyle writes "0.0.0.0 name1 name2" instead of a bare name.
 	hosts   []string
 	ipStyle bool
@@ -113,6 +119,14 @@ func anyRule(t uint16) rule   { return rule{kind: 'n', anchor: 'n', body: "*", p
 
 // text is the rule as it appears in the configuration.
 func (ru rule) text() string {
+	if ru.kind == 'j' {
+		return ru.junk
+	}
+	if ru.pad {
+		ru.pad = false
+
+		return "  " + ru.text() + " \t"
+	}
 	if ru.kind == 'h' {
 		if ru.ipStyle {
 			return "0.0.0.0 " + strings.Join(ru.hosts, " ")
@@ -221,7 +235,9 @@ func (c *cfg) lines() (lines []string) {
 		lines = append(lines, "gnet "+prefArgs(p))
 	}
 	for _, ru := range c.grules {
-		lines = append(lines, "grule "+ru.args())
+		if ru.kind != 'j' {
+			lines = append(lines, "grule "+ru.args())
+		}
 	}
 	for k, p := range c.profs {
 		lines = append(lines, fmt.Sprintf("pnew %d", k))
@@ -238,7 +254,9 @@ func (c *cfg) lines() (lines []string) {
 			lines = append(lines, fmt.Sprintf("pba %d %d", k, a))
 		}
 		for _, ru := range p.rules {
-			lines = append(lines, fmt.Sprintf("prule %d %s", k, ru.args()))
+			if ru.kind != 'j' {
+				lines = append(lines, fmt.Sprintf("prule %d %s", k, ru.args()))
+			}
 		}
 	}
 
@@ -380,8 +398,15 @@ func b2s(b bool) string {
 	return "0"
 }
 
+// addrArgs renders an address for the model: family (1 IPv4, 0 IPv6, z IPv6
+// with a zone) and value.
 func addrArgs(ip netip.Addr) string {
-	return fmt.Sprintf("%s %s", b2s(ip.Is4()), new(big.Int).SetBytes(ip.AsSlice()).String())
+	fam := b2s(ip.Is4())
+	if ip.Zone() != "" {
+		fam = "z"
+	}
+
+	return fmt.Sprintf("%s %s", fam, new(big.Int).SetBytes(ip.AsSlice()).String())
 }
 
 func prefArgs(p netip.Prefix) string { return fmt.Sprintf("%s %d", addrArgs(p.Addr()), p.Bits()) }
@@ -647,6 +672,10 @@ func refRuleValid(ru rule) bool {
 }
 
 func refRuleMatches(ru rule, host string, qt uint16) bool {
+	if ru.kind == 'j' {
+		// An empty entry or a comment is no rule.
+		return false
+	}
 	if ru.kind == 'h' {
 		for _, h := range ru.hosts {
 			if host == strings.ToLower(h) {
@@ -760,6 +789,9 @@ func sigSuffix(v verdict, q *request) string {
 	}
 	if q.qclass != 0 {
 		s += "+class"
+	}
+	if q.remote.Addr().Zone() != "" {
+		s += "+zoned"
 	}
 	if _, flags := splitDev(q.dev); flags != "" {
 		// The switches that make people think "nothing applies to this profile" get their own class.
@@ -981,9 +1013,21 @@ func genRule(rng *rand.Rand) (ru rule) {
 	return ru
 }
 
+// junkEntries are entries of a rule list that are not rules: empty and blank strings, comments
+// (also ones that contain a rule text).
+var junkEntries = []string{"", " ", "\t", "# ||blk.test^", "! blk.test", "#", "!", "# *$dnstype=A", "####"}
+
 func genRules(rng *rand.Rand, max int) (rs []rule) {
 	for i := rng.IntN(max + 1); i > 0; i-- {
-		rs = append(rs, genRule(rng))
+		ru := genRule(rng)
+		ru.pad = rng.IntN(10) == 0
+		rs = append(rs, ru)
+		if rng.IntN(8) == 0 {
+			// … anywhere in the list: in front of, between and behind the rules.
+			j := rule{kind: 'j', junk: junkEntries[rng.IntN(len(junkEntries))]}
+			at := rng.IntN(len(rs) + 1)
+			rs = append(rs[:at], append([]rule{j}, rs[at:]...)...)
+		}
 	}
 
 	return rs
@@ -1070,6 +1114,9 @@ func genName(rng *rand.Rand, rules []rule) string {
 	// few name characters and every '^' removed.
 	var doms []string
 	for _, ru := range rules {
+		if ru.kind == 'j' {
+			continue
+		}
 		if ru.kind == 'h' {
 			doms = append(doms, ru.hosts...)
 
@@ -1116,9 +1163,31 @@ func genName(rng *rand.Rand, rules []rule) string {
 	case 1:
 		name = strings.ToUpper(name[:1]) + name[1:]
 	}
+	if rng.IntN(12) == 0 {
+		// Legal on the wire, unusual in a name: characters outside letters, digits, '-', '_' and '.'
+		// (the separator '^' of a pattern accepts most of them; '||' does not skip over them).
+		sp := specialChars[rng.IntN(len(specialChars))]
+		switch i := rng.IntN(len(name) + 1); rng.IntN(4) {
+		case 0:
+			name = name[:i] + sp + name[i:]
+		case 1:
+			name = sp + "." + name
+		case 2:
+			name = name + sp
+		default:
+			if j := strings.IndexByte(name, '.'); j >= 0 {
+				name = name[:j] + sp + name[j+1:]
+			} else {
+				name = name + sp + "test"
+			}
+		}
+	}
 
 	return name + "."
 }
+
+// specialChars: see genName.  (No blank: a name is one word of the model's line protocol.)
+var specialChars = []string{"*", "@", "/", ":", "%", "~", "!", "$", "=", "+", "|", "^", "\\", "\\.", "\\@", "\\032", "\\200", "(", "'", "?", "&", "#", ",", ";"}
 
 func genLoc(rng *rand.Rand, c *cfg) *geoip.Location {
 	if rng.IntN(6) == 0 {
@@ -1141,6 +1210,10 @@ func genRemote(rng *rand.Rand, c *cfg) netip.AddrPort {
 	ip := genAddrNear(rng, c.allNets())
 	if ip.Is4() && rng.IntN(8) == 0 {
 		ip = netip.AddrFrom16(ip.As16())
+	} else if ip.Is6() && rng.IntN(5) == 0 {
+		// What the kernel reports for a link-local client: an address with a zone.  The
+		// statement speaks about the address; a zone moves no client out of a subnet.
+		ip = ip.WithZone([]string{"eth0", "2"}[rng.IntN(2)])
 	}
 	port := uint16(1 + rng.IntN(65535))
 	if rng.IntN(40) == 0 {
@@ -1576,6 +1649,14 @@ func runMwCase(r *hlib.Result, m *hlib.Model, campaign string, c *cfg, qs []*req
 				"observed": ob.canon(), "failing_request_index": j, "ops": append([]string{}, lines[:pre+j+1]...)}
 		})
 		r.Count(campaign + ".real." + ob.why)
+		if q.remote.Addr().Zone() != "" {
+			r.Count(campaign + ".input.zoned-client." + v.class)
+		}
+		if strings.ContainsFunc(q.qname, func(c rune) bool {
+			return !(c >= 'a' && c <= 'z' || c >= 'A' && c <= 'Z' || c >= '0' && c <= '9' || c == '-' || c == '_' || c == '.')
+		}) {
+			r.Count(campaign + ".input.special-name." + v.class)
+		}
 		if _, flags := splitDev(q.dev); flags != "" {
 			// Which switches met which verdict: the access decision must be the same with and without them.
 			kind := "other-switches"
@@ -1597,6 +1678,13 @@ func runMwCase(r *hlib.Result, m *hlib.Model, campaign string, c *cfg, qs []*req
 				map[string]any{"campaign": campaign, "config": c.describe(), "failing_request_index": j, "ops": append([]string{}, lines[:pre+j+1]...)})
 
 			break
+		}
+	}
+	for _, ru := range c.allRules() {
+		if ru.kind == 'j' {
+			r.Count(campaign + ".input.junk-entry-in-rule-list")
+		} else if ru.pad {
+			r.Count(campaign + ".input.padded-rule")
 		}
 	}
 	nt := nBlocked > 0 && nServed > 0
@@ -2116,10 +2204,11 @@ func runStackCase(r *hlib.Result, m *hlib.Model, rng *rand.Rand) {
 func seededCases(r *hlib.Result, m *hlib.Model) {
 	any := anyRule
 	c := &cfg{
-		gnets:  []netip.Prefix{netip.MustParsePrefix("10.1.2.0/24")},
+		gnets:  []netip.Prefix{netip.MustParsePrefix("10.1.2.0/24"), netip.MustParsePrefix("fe80::/64")},
 		grules: []rule{any(dns.TypeNS), domRule("blk.test")},
 		profs: []*pcfg{
-			{bn: []netip.Prefix{netip.MustParsePrefix("192.0.2.0/24")}, an: []netip.Prefix{netip.MustParsePrefix("192.0.2.1/32")},
+			{bn: []netip.Prefix{netip.MustParsePrefix("192.0.2.0/24"), netip.MustParsePrefix("fe80:0:0:1::/64")},
+				an: []netip.Prefix{netip.MustParsePrefix("192.0.2.1/32"), netip.MustParsePrefix("fe80:0:0:2::/64")},
 				ba: []geoip.ASN{42}, aa: []geoip.ASN{1}, rules: []rule{any(dns.TypeTXT)}},
 			{},
 		},
@@ -2157,6 +2246,12 @@ func seededCases(r *hlib.Result, m *hlib.Model) {
 		{remote: ap("9.9.9.9:4000"), qname: "ok.test.", qtype: dns.TypeA, loc: l(7), dev: "ok:0:Ff"},
 		{remote: ap("10.1.2.9:4000"), qname: "ok.test.", qtype: dns.TypeA, loc: l(7), dev: "ok:1:Ff"},
 		{remote: ap("9.9.9.9:4000"), qname: "x.blk.test.", qtype: dns.TypeA, loc: l(7), dev: "empty:Ff"},
+		// Link-local clients, as the kernel reports them (with a zone): globally blocked subnet, blocked
+		// subnet of the profile, allowed subnet over a blocked ASN, no rule (were matched by no subnet).
+		{remote: ap("[fe80::1%eth0]:4000"), qname: "ok.test.", qtype: dns.TypeA, loc: l(7), dev: "nil"},
+		{remote: ap("[fe80:0:0:1::1%eth0]:4000"), qname: "ok.test.", qtype: dns.TypeA, loc: l(7), dev: "ok:0"},
+		{remote: ap("[fe80:0:0:2::1%2]:4000"), qname: "ok.test.", qtype: dns.TypeA, loc: l(42), dev: "ok:0"},
+		{remote: ap("[fe80:0:0:3::1%eth0]:4000"), qname: "ok.test.", qtype: dns.TypeA, loc: l(7), dev: "ok:0"},
 	}
 	runMwCase(r, m, "seeded", c, qs, agd.ProtoDNS)
 	runMwCase(r, m, "seeded", c, qs, agd.ProtoDoH)
